@@ -154,7 +154,7 @@ Definition harness_bytes : Z := 3 * 2 ^ 30.
 Lemma corrfunc_sizes_refuted :
   (* wrap of acf_length+1: nothing is allocated and calc_coor_acf writes through acf.begin() *)
   (exists c, r_err (colvar_init 0 c) = false /\
-             forall host h, all_ok (corrfunc_uses host (r_state (colvar_init 0 c)) h) = false) /\
+             forall host, all_ok (corrfunc_uses host (r_state (colvar_init 0 c)) 0) = false) /\
   (* a length / a stride the host cannot allocate: std::bad_alloc leaves the library *)
   (exists c, r_err (colvar_init 0 c) = false /\ all_ok (corrfunc_uses harness_bytes (r_state (colvar_init 0 c)) 0) = false) /\
   (exists c, r_err (colvar_init 0 c) = false /\ all_ok (corrfunc_uses harness_bytes (r_state (colvar_init 0 c)) 0) = false /\ s_cflen (r_state (colvar_init 0 c)) = 2) /\
@@ -162,7 +162,10 @@ Lemma corrfunc_sizes_refuted :
   (exists c h, r_err (colvar_init 0 c) = false /\ all_ok (corrfunc_uses two64 (r_state (colvar_init 0 c)) h) = false).
 Proof.
   split; [|split; [|split]].
-  - exists (corr_conf (-1) 1 0). split; [reflexivity|]. intros host h. reflexivity.
+  - exists (corr_conf (-1) 1 1). split; [reflexivity|]. intros host.
+    assert (E : r_state (colvar_init 0 (corr_conf (-1) 1 1)) = mkCv 1 false 0 0 true (two64 - 1) 1 1) by reflexivity.
+    rewrite E. unfold corrfunc_uses. cbn [s_corr s_cflen s_cfoff s_cfstride].
+    rewrite all_ok_app. apply andb_false_iff. right. vm_compute. reflexivity.
   - exists (corr_conf 2147483647 1 0). split; reflexivity.
   - exists (corr_conf 2 2147483647 0). repeat split; vm_compute; reflexivity.
   - exists (corr_conf 1000 1 (-1)), 999. split; reflexivity.
